@@ -124,6 +124,12 @@ def answerVerify (ws : List String) : Option String := do
       | some (ro, acco) =>
         ro.ids.map (·.2) == r.ids && ro.h == r.h && ro.xn == r.xn && ro.lag == r.lag &&
           sameMsm acco.lhs acc.lhs && sameMsm acco.rhs acc.rhs
-    pure s!"ie={fmtHexList r.instEvals} lag={fmtHexList [r.lag.l0, r.lag.lLast, r.lag.lBlind]} n={r.ids.length} ids={fmtHexList r.ids} xn={toHex r.xn} h={toHex r.h} qes={";".intercalate (o.qEvalSets.map fun s => fmtHexList (s.map (·.val)))} fe={toHex o.fEval.val} v={toHex o.v.val} lhs={fmtMsmV label acc.lhs} rhs={fmtMsmV label acc.rhs} off={fmtBool off}"
+    -- the off-circuit verifier with the grouping by VALUE, and the hypotheses of
+    -- `C20.in_circuit_acc_eq_off_circuit` on this proof
+    let (offv, inj, wf) : Bool × Bool × Bool :=
+      match offRunV toF Zn.inv fld names sh cs nc plain stream with
+      | none => (false, false, false)
+      | some (acco, inj, wf) => (sameMsm acco.lhs acc.lhs && sameMsm acco.rhs acc.rhs, inj, wf)
+    pure s!"ie={fmtHexList r.instEvals} lag={fmtHexList [r.lag.l0, r.lag.lLast, r.lag.lBlind]} n={r.ids.length} ids={fmtHexList r.ids} xn={toHex r.xn} h={toHex r.h} qes={";".intercalate (o.qEvalSets.map fun s => fmtHexList (s.map (·.val)))} fe={toHex o.fEval.val} v={toHex o.v.val} lhs={fmtMsmV label acc.lhs} rhs={fmtMsmV label acc.rhs} off={fmtBool off} offv={fmtBool offv} inj={fmtBool inj} wf={fmtBool wf}"
 
 end MidnightZK.C20.V
